@@ -334,6 +334,42 @@ def c12_5(ck, prog, rid='C12.5'):
         raise AnalysisBroken('only %d constant header-field accesses found' % n)
 
 
+def c12_6(ck, prog, rid='C12.6'):
+    r = ck.rule(rid, 'string edit primitives are all-or-nothing: a dbus-string.c function that reports failure has '
+                'not written into the destination string before the failing step (growing is done first, bytes '
+                'are moved afterwards)', 'TS',
+                breaks='a header edit that runs out of memory returns FALSE but has already overwritten header '
+                       'bytes: the message no longer serialises to valid bytes', floor=6)
+    STR = 'dbus/dbus-string.c'
+    WR = {'memmove', 'memcpy', 'memset'}
+    n = 0
+    for fn in lib.prod_funcs(prog, {STR}):
+        if fn.ret != 'dbus_bool_t':
+            continue
+        writes = [c for b, i, c in fn.calls() if c.get('callee') in WR]
+        if not writes:
+            continue
+        n += 1
+
+        def on_event(user, ev, ctx):
+            if ev['ev'] == 'call' and ev['e'].get('callee') in WR:
+                return ('written', ev['line'])
+            return user
+
+        def on_exit(user, ctx, ret, ev, fn=fn):
+            if user is not None and ctx.ret_status(ret) == 'fail':
+                ctx.report('%s returns FALSE after bytes were already written (line %d)' % (fn.name, user[1]),
+                           ev['line'] if ev else fn.endline, key=('partial', fn.name))
+        ex = Explorer(fn, init=None, on_event=on_event, on_exit=on_exit, calls='ALL', track='auto', cap=300000).run()
+        key = '%s:all-or-nothing' % fn.name
+        if ex.reports:
+            for k, rep in ex.reports.items():
+                r.violation(key, fn.name, STR, rep['line'], rep['reason'], rep['path'])
+        else:
+            r.ok(key)
+    r.note('%d byte-moving string primitives examined' % n)
+
+
 def run(ck):
     ck.explanation = (
         'Static rules over dbus/dbus-marshal-header.c, dbus/dbus-marshal-recursive.c, dbus/dbus-message.c: '
@@ -350,3 +386,4 @@ def run(ck):
         c12_3(ck, prog)
         c12_4(ck, prog)
         c12_5(ck, prog)
+        c12_6(ck, prog)
